@@ -114,8 +114,9 @@ class CliSemantics(object):
             self.nscores[n] = len(val.items)
         st = ev.new_state()
         self.st = st
+        self.ret = None
         try:
-            ev.inline(st, self.f, None, [], {}, self.f.node, self.module)
+            self.ret = ev.inline(st, self.f, None, [], {}, self.f.node, self.module)
         except Dead:
             pass
         self.events = list(ev.events)
@@ -420,6 +421,27 @@ def verbatim_tokens(pins, t, out=None):
     return out
 
 
+def console_script_of_main(ctx):
+    """Name of a console script that setup.py maps to cvss.cvss_calculator:main, else None (read
+    from the source of setup.py: string constants of the form 'name = module:function')."""
+    import ast
+    import os
+    import re
+
+    path = os.path.join(ctx.repo.root, "setup.py")
+    try:
+        with open(path) as fh:
+            tree = ast.parse(fh.read())
+    except (OSError, SyntaxError):
+        return None
+    for n in ast.walk(tree):
+        if isinstance(n, ast.Constant) and isinstance(n.value, str):
+            m = re.match(r"^\s*([\w.-]+)\s*=\s*cvss\.cvss_calculator\s*:\s*main\s*$", n.value)
+            if m:
+                return m.group(1)
+    return None
+
+
 def check_cli_semantics(ctx, led, rule="C17.sem"):
     cs = CliSemantics(ctx)
     where = cs.module.where(cs.f.node)
@@ -430,6 +452,7 @@ def check_cli_semantics(ctx, led, rule="C17.sem"):
         led.violation("%s.%s" % (rule, suffix), "%s::%s" % (ck, construct), w, what)
     n = 0
     first = {}
+    wrapped = console_script_of_main(ctx)
 
     def report(kind, key, w, msg):
         if kind not in first:
@@ -460,6 +483,15 @@ def check_cli_semantics(ctx, led, rule="C17.sem"):
                 c = value_at(pins, code) if isinstance(code, Term) else None
                 if c not in (0, None) or isinstance(c, bool):
                     report("exit", short(node, 60), cs.module.where(node), "for the command line `%s` the program ends with exit status %r" % (cmd, c))
+        if wrapped and isinstance(cs.ret, Term):
+            # setup.py installs main() as a console script: the generated wrapper runs
+            # sys.exit(main()), so what main() returns is the exit status
+            try:
+                rv = value_at(pins, cs.ret)
+            except (Dead, AnalysisError):
+                rv = None
+            if rv is not None and not (isinstance(rv, (int, bool)) and rv == 0):
+                report("exit.return", "return value", where, "for the command line `%s` main() returns %r; the installed console script `%s` runs sys.exit(main()) and so ends with a non-zero exit status" % (cmd, rv, wrapped))
         sel = allowed_classes(pins.get("opt:-2"), pins.get("opt:-3"), pins.get("opt:-4"))
         asked = [a for a in cs.asked if reaches(pins, a[0])]
         ctors = [c for c in cs.ctors if reaches(pins, c[0])]
